@@ -157,6 +157,12 @@ Theorem getitem_mask_of_another_length_raises : forall n vs nm yy ov m,
 Proof. exact getitem_mask_wrong_length_proof. Qed.
 Print Assumptions getitem_mask_of_another_length_raises.
 
+Theorem all_true_mask_is_identity_all_false_is_empty : forall (X : Type) (l : list X),
+  py_select (IMask (repeat true (length l))) l = Some l
+  /\ py_select (IMask (repeat false (length l))) l = Some [].
+Proof. exact (@py_select_mask_extremes). Qed.
+Print Assumptions all_true_mask_is_identity_all_false_is_empty.
+
 Example ex_mask_plain :
   py_select (IMask [true; false; true; true]) [10; 11; 12; 13] = Some [10; 12; 13]
   /\ py_select (IMask [true; false; true]) [10; 11; 12; 13] = None
